@@ -240,7 +240,10 @@ def packIn (w : Store Bool) (batch : Array Gate) (words : Nat) (second : Bool) :
     let i := 64 * k + o
     if h : i < batch.size then w.get (if second then batch[i].in1 else batch[i].in0) else false
 
-/-- `d = x ⊕ a`, `e = y ⊕ b` (local, masked). -/
+/-- `d = x ⊕ a`, `e = y ⊕ b` (local, masked).  The Go slices `nw.andD/andE`
+keep the length of the largest batch so far (`expandClear`); the words beyond
+`words` are zero at every party, are broadcast and XORed as zeros and never
+read back – the model carries exactly `words` words. -/
 def maskedDE (p : Party) (batch : Array Gate) (words : Nat) : Words × Words :=
   let x := packIn p.wires batch words false
   let y := packIn p.wires batch words true
